@@ -29,8 +29,7 @@ RELJUMPS = [dis.opname[o] for o in dis.hasjrel if not dis.opname[o].startswith("
 
 
 def cd_module():
-    import code_data
-    return code_data
+    return H.lib()
 
 
 def build(rng, size="small", canonical=True, depth=0):
